@@ -219,7 +219,7 @@ def run(tier: str) -> int:
     if tier == "quick":
         body(chk, mc_nodes=3, n_random=1200, deep=3, chains_w=[60, 400], chains_r=[40, 120])
     else:
-        body(chk, mc_nodes=4, n_random=15000, deep=4, chains_w=[500, 2000], chains_r=[150, 300])
+        body(chk, mc_nodes=3, n_random=8000, deep=4, chains_w=[500, 2000], chains_r=[150, 300])
     chk.cov["exhaustive"] = True
     chk.cov["rule"] = ("TLC enumerates every page with <= N nodes over the 'elems' alphabet (elements, loops, components with "
                        "0..n roots, text-only, component-as-root, roots from fills/defaults/loops) x2 modes; random programs with "
